@@ -196,6 +196,18 @@ class C16(TableProp):
                         rows.append([list(k), tx, None, 1, [tx % 3], []])
             rng.shuffle(rows)
             yield {'shape': shape, 'rows': rows, 'live': [], 'mode': 'wiped', 'family': 'dense_composite'}
+        # wide transactions: k entities all changed in each of T transactions - the tool's self-join then yields
+        # thousands of (row, successor) pairs, i.e. sizes at which batching / paging of the query would show
+        wide = [(25, 4), (11, 11), (33, 3)] if tier == 'quick' else \
+            [(rng.randrange(8, 41), rng.randrange(3, 14)) for _ in range(40)]
+        for k, T in wide:
+            shape = {'key': 'int', 'ncols': 1, 'strategy': 'validity', 'mods': False}
+            rows = []
+            for tx in range(1, T + 1):
+                for e in range(1, k + 1):
+                    if tx == 1 or rng.random() < 0.9:
+                        rows.append([[e], tx, None, 0 if tx == 1 else 1, [tx % 3], []])
+            yield {'shape': shape, 'rows': rows, 'live': [], 'mode': 'wiped', 'family': 'wide_transactions'}
         if tier == 'thorough':
             for rows in tg.all_small_tables(2, 4, 0, 5):
                 yield {'shape': {'key': 'int', 'ncols': 1, 'strategy': 'validity', 'mods': False},
@@ -279,7 +291,12 @@ class C19(TableProp):
             shape = tg.random_shape(rng, strategy=rng.choice(['subquery', 'subquery', 'subquery', 'validity']),
                                     mods=False)
             n = rng.choice([2, 3, 4, 5, 6, 8]) if tier == 'quick' else rng.choice([3, 5, 8, 12, 20])
-            rows, keys = tg.random_rows(rng, shape, n, nvals=2, ops=(1, 1, 1, 0), p_null=0.15, p_repeat=0.8,
+            nvals = 2
+            if rng.random() < 0.3:
+                # integer columns whose values Python hashes alike (-1 / -2, 0 / 2**61-1)
+                shape['valtype'] = 'int'
+                nvals = 4
+            rows, keys = tg.random_rows(rng, shape, n, nvals=nvals, ops=(1, 1, 1, 0), p_null=0.15, p_repeat=0.8,
                                         nkeys=rng.choice([1, 1, 2, 3]))
             if shape['strategy'] == 'validity' and rng.random() < 0.5:
                 rows = [r[:2] + [e] + r[3:] for r, e in zip(rows, tg.chain_ends(rows))]
